@@ -124,6 +124,8 @@ _BINDING_MARKERS = (
     "multiple values for argument",
     "multiple values for keyword argument",
     "positional-only arguments passed as keyword",
+    "takes no arguments",
+    "takes exactly one argument",
 )
 
 
